@@ -1132,7 +1132,7 @@ class TransferManager(BaseManager):
         """
         try:
             await self._prepare_download_path(transfer)
-        except OSError:
+        except (OSError, ValueError):
             logger.exception("failed to create path : %s", transfer.local_path)
             await connection.disconnect(CloseReason.REQUESTED)
             await transfer.state.fail(reason=FailReason.FILE_READ_ERROR)
